@@ -32,7 +32,7 @@ def run_replay(world, pid, name, src, host, desc):
     path = save_replay(pid, name, src, desc)
     broken = [p for p, (okk, txt) in res.items() if okk is None]
     if broken: return None, path, 'replay build/run problem: ' + res[broken[0]][1][-500:]
-    failed = [p for p, (okk, txt) in res.items() if okk is False and 'VERIF-VIOLATED' in txt]
+    failed = [p for p, (okk, txt) in res.items() if okk is False and ('VERIF-VIOLATED' in txt or 'panicked at' in txt)]
     return (len(failed) > 0), path, '; '.join(f'{p}: {"FAILED" if okk is False else "passed"}' for p, (okk, _) in res.items())
 
 
@@ -127,7 +127,7 @@ class Dotted(Harness):
         s2 = Str([flip_case(c) for c in s.chars])
         r2 = ex.call_fn(fds, [s2])
         ex.require(r2.variant == r.variant, 'case', 'case-flipped spelling accepted differently')
-        if r.variant == 0: return {'cls': 'None', 'sample': smp}
+        if r.variant == 0: return {'cls': 'None', 'vs': (smp['text'], 'None'), 'sample': smp}
         dn = r.fields[0].v
         ex.require(name_wf(w, dn), 'name-invariant', 'from_dotted_string result violates the invariant')
         got = name_labels(w, dn)
@@ -139,7 +139,25 @@ class Dotted(Harness):
         r3 = ex.call_fn(fds, [t])
         ex.require(r3.variant == 1, 'text-roundtrip', 'to_dotted_string output is rejected by from_dotted_string')
         ex.require(seq(ex, r3.fields[0].v, dn), 'text-roundtrip', 'from_dotted_string(to_dotted_string(n)) != n')
-        return {'cls': 'Some-%d' % (len(ref) - 1), 'sample': smp}
+        return {'cls': 'Some-%d' % (len(ref) - 1), 'vs': (smp['text'], 'Some'), 'sample': smp}
+
+    def native_validate(self, world, vsamples):
+        import c03
+        rows = ',\n'.join('(%s, "%s")' % (rust_str(t), c) for t, c in vsamples)
+        src = '''use super::*;
+#[test]
+fn replay() {
+    let cases: Vec<(&str, &str)> = vec![%s];
+    let mut bad = 0;
+    for (i, (t, want)) in cases.iter().enumerate() {
+        let got = if DomainName::from_dotted_string(t).is_some() { "Some" } else { "None" };
+        if &got != want { bad += 1; println!("VERIF-MISMATCH case {i}: interpreter {want}, native {got}, text {t:?}"); }
+    }
+    println!("VERIF-CHECKED {} mismatches {}", cases.len(), bad);
+    assert!(bad == 0);
+}
+''' % rows
+        return c03.cross_validate(world, 'dns-types', TYPES_RS, src, len(vsamples))
 
     def finding_key(self, v): return f"C16 dotted {v.get('tag')}"
 
@@ -246,4 +264,4 @@ def harnesses(world, tier, seed):
         Joins(name='joins', lens=(1, 62, 63), bounds={'labels_each': '0..2', 'lengths': '{1,62,63}', 'first octet': 'symbolic a..b'}, expected_classes=('joined', 'too-long')),
         Relative(name='relative-text', n=6 if q else 8, bounds={'chars': 6 if q else 8, 'origin': '0..2 one-octet labels'}, expected_classes=('Some', 'None')),
     ]
-    return hs, (300 if q else 1800), None
+    return hs, (1500 if q else 5400), None
